@@ -248,6 +248,52 @@ func (c *FnCtx) callModifies(call *ssa.CallCommon, in *ssa.Function, add func(pr
 	var fn *ssa.Function
 	if call.IsInvoke() {
 		fc = c.eng.lookupSpec("(" + typeKey(call.Value.Type()) + ")." + call.Method.Name())
+		if fc == nil {
+			// sealed interface: anything any implementation's contract allows (or everything, if one has none)
+			impls := c.eng.implementations(call.Value.Type())
+			if len(impls) == 0 {
+				return
+			}
+			for _, impl := range impls {
+				m := c.eng.prog.LookupMethod(impl, call.Method.Pkg(), call.Method.Name())
+				if m == nil {
+					continue
+				}
+				mfc := c.eng.contractOf(m)
+				if mfc == nil || mfc.Inline {
+					if c.eng.inlinable(m, c.fn) || (mfc != nil && mfc.Inline) {
+						inlineScan(m)
+					} else {
+						add("*", "")
+					}
+					continue
+				}
+				for _, mm := range mfc.Modifies {
+					mm = strings.TrimSpace(mm)
+					switch {
+					case mm == "*":
+						add("*", "")
+					case strings.HasPrefix(mm, "key:"):
+						add(strings.TrimSpace(mm[4:]), "")
+					case strings.HasPrefix(mm, "elems(") || strings.HasPrefix(mm, "mapof("):
+						inner := mm[6 : len(mm)-1]
+						t := c.staticPathType(mfc, m, call, inner)
+						if t != nil && strings.HasPrefix(mm, "elems(") && elemTypeOf(t) != nil {
+							add(elemKey(elemTypeOf(t)), "")
+						} else if mt, ok := typeAsMap(t); ok && strings.HasPrefix(mm, "mapof(") {
+							add(typeKey(mt), "")
+						} else {
+							add("*", "")
+						}
+					default:
+						for _, pre := range c.widenLoc(mfc, m, call, mm) {
+							add(pre, "")
+						}
+					}
+				}
+			}
+			return
+		}
 	} else if fn = call.StaticCallee(); fn != nil {
 		name := fullName(fn)
 		switch {
@@ -299,6 +345,10 @@ func (c *FnCtx) callModifies(call *ssa.CallCommon, in *ssa.Function, add func(pr
 		m = strings.TrimSpace(m)
 		if m == "*" {
 			add("*", "")
+			continue
+		}
+		if strings.HasPrefix(m, "key:") {
+			add(strings.TrimSpace(m[4:]), "")
 			continue
 		}
 		if strings.HasPrefix(m, "elems(") || strings.HasPrefix(m, "mapof(") {
@@ -491,4 +541,12 @@ func invariantRef(fr *frame, root ssa.Value, blocks map[*ssa.BasicBlock]bool) st
 		}
 	}
 	return ""
+}
+
+func typeAsMap(t types.Type) (*types.Map, bool) {
+	if t == nil {
+		return nil, false
+	}
+	m, ok := t.Underlying().(*types.Map)
+	return m, ok
 }
